@@ -169,7 +169,7 @@ def run(prog, rep):
                                                       ("pshm-posix.c", "pp_shm_create_handle", "pp_shm_clean_handle", "shm_unlink", "shm_created", "shm_open")):
         u = prog.unit(uname)
         cl = u.fn(clean).inlined()
-        cr = u.fn(create).inlined()
+        cr = u.fn(create, raw=True).inlined(skip=(clean,))        # the clean-up helper stays a call: its call sites are the exits checked below
         # free -> clean -> unlink under the flag
         frs = [f for f in u.functions.values() if f.name.endswith("_free") and f.api]
         okf = bool(frs) and all(any(c.get("callee") == clean for (b, i, c) in f.calls()) for f in frs)
